@@ -8,8 +8,6 @@
 package main
 
 import (
-	"crypto/sha256"
-	"encoding/hex"
 	"encoding/json"
 	"flag"
 	"fmt"
@@ -19,11 +17,9 @@ import (
 	"time"
 
 	abci "github.com/cometbft/cometbft/abci/types"
-	cmtproto "github.com/cometbft/cometbft/proto/tendermint/types"
-	dbm "github.com/cosmos/cosmos-db"
 	sdk "github.com/cosmos/cosmos-sdk/types"
+	"github.com/palomachain/paloma/v2/zzverif/hist"
 	"github.com/palomachain/paloma/v2/zzverif/report"
-	"github.com/palomachain/paloma/v2/zzverif/world"
 )
 
 // deviation from the default environment
@@ -45,11 +41,7 @@ type dev struct {
 
 func (d dev) String() string { b, _ := json.Marshal(d); return string(b) }
 
-type blockDigest struct {
-	Height int64
-	Hash   string
-	Detail []string // per-tx result summaries, for reports
-}
+type blockDigest = hist.BlockDigest
 
 func main() {
 	replay := flag.String("replay", "", "replay file")
@@ -276,95 +268,36 @@ func (h *history) execute(d dev) []blockDigest {
 	defer setClockSkew(0)
 	mapBegin(d, h)
 	defer mapEnd(d, h)
-
-	db := dbm.NewMemDB()
-	cfg := world.Config{Stakes: world.StakesOf(1_000_000, 1_000_000, 1_000_000, 500_000), Users: []string{"adm", "U1", "U2"}, DB: db}
-	w := world.New(cfg)
-	sc := newScript(w)
-	sc.setup()
-	var out []blockDigest
-	height := int64(1)
-	t := w.Root.BlockTime()
-	h.txCount, h.txOK = 0, 0
-	for i := 0; i < sc.blocks(); i++ {
-		if d.Kind == "restart" && d.At == i {
-			cfg.Restart = true
-			w = world.New(cfg)
-			sc.w = w
-		}
-		if d.Kind == "query" && d.At == i {
-			sc.queries(height+1, t)
-		}
-		if d.Kind == "clock" && d.PerBlock {
-			setClockSkew(d.Skew * int64(i%7-3))
-		}
-		height++
-		t = t.Add(2 * time.Second)
-		rctx := w.App.NewUncachedContext(false, cmtproto.Header{ChainID: world.ChainID, Height: height, Time: t})
-		txs := sc.txsFor(i, rctx)
-		var raw [][]byte
-		for _, tx := range txs {
-			bz, err := w.App.TxConfig().TxEncoder()(tx)
-			if err != nil {
-				panic(err)
+	out, run := hist.Execute(hist.Hooks{
+		BeforeBlock: func(i int, r *hist.Run) {
+			if d.Kind == "restart" && d.At == i {
+				r.Restart()
 			}
-			raw = append(raw, bz)
-		}
-		resp, err := w.App.FinalizeBlock(&abci.RequestFinalizeBlock{Height: height, Time: t, Txs: raw})
-		if err != nil {
-			out = append(out, blockDigest{Height: height, Hash: "finalize-error:" + err.Error()})
-			return out
-		}
-		if _, err := w.App.Commit(); err != nil {
-			panic(err)
-		}
-		out = append(out, digest(height, resp))
-		if h.events != nil {
-			for _, r := range resp.TxResults {
-				for _, e := range r.Events {
+			if d.Kind == "query" && d.At == i {
+				r.Script.Queries(r.Height+1, r.Time)
+			}
+			if d.Kind == "clock" && d.PerBlock {
+				setClockSkew(d.Skew * int64(i%7-3))
+			}
+		},
+		OnBlock: func(i int, height int64, resp *abci.ResponseFinalizeBlock) {
+			if h.events != nil {
+				for _, r := range resp.TxResults {
+					for _, e := range r.Events {
+						h.events[e.Type]++
+					}
+				}
+				for _, e := range resp.Events {
 					h.events[e.Type]++
 				}
 			}
-			for _, e := range resp.Events {
-				h.events[e.Type]++
-			}
-		}
-		h.txCount += len(raw)
-		for _, r := range resp.TxResults {
-			if r.Code == 0 {
-				h.txOK++
-			}
-		}
+		},
+	})
+	if run.Panic != nil {
+		out = append(out, blockDigest{Height: run.PanicAt, Hash: fmt.Sprintf("panic: %v", run.Panic)})
 	}
+	h.txCount, h.txOK = run.TxCount, run.TxOK
 	return out
-}
-
-func digest(height int64, resp *abci.ResponseFinalizeBlock) blockDigest {
-	hs := sha256.New()
-	hs.Write(resp.AppHash)
-	var detail []string
-	ev := func(es []abci.Event) {
-		for _, e := range es {
-			hs.Write([]byte(e.Type))
-			for _, a := range e.Attributes {
-				hs.Write([]byte(a.Key))
-				hs.Write([]byte{0})
-				hs.Write([]byte(a.Value))
-				hs.Write([]byte{1})
-			}
-		}
-	}
-	for i, r := range resp.TxResults {
-		fmt.Fprintf(hs, "%d|%d|%s|%x|%d|", i, r.Code, r.Codespace, r.Data, r.GasUsed)
-		ev(r.Events)
-		l := r.Log
-		if len(l) > 90 {
-			l = l[:90]
-		}
-		detail = append(detail, fmt.Sprintf("tx%d code=%d gas=%d %s", i, r.Code, r.GasUsed, l))
-	}
-	ev(resp.Events)
-	return blockDigest{Height: height, Hash: hex.EncodeToString(hs.Sum(nil)[:16]) + "/" + hex.EncodeToString(resp.AppHash[:8]), Detail: detail}
 }
 
 var _ = sort.Strings
